@@ -172,6 +172,9 @@ def run_shards(prop, cfg, tier, seed, binpath, replay=None, extra_env=None, sub=
             env["VERIF_REPLAY_PART"] = replay["part"]
             env["VERIF_VERBOSE"] = "1"
         env.setdefault("GOMAXPROCS", str(cfg.get("gomaxprocs", 2)))
+        # every history builds a fresh app; without a soft limit the collector lets each shard's heap double several
+        # times (measured: 2.8 GB after two minutes, 1.25 GB with the limit, same work) and 16 shards exhaust the machine
+        env.setdefault("GOMEMLIMIT", "2GiB")
         lf = open(os.path.join(ldir, "shard-%d.log" % i), "w")
         p = subprocess.Popen([binpath, prop], cwd=VERIF, env=env, stdout=lf, stderr=subprocess.STDOUT)
         procs.append((i, p, lf))
